@@ -35,3 +35,34 @@ let () =
 let () =
   register "tw.wfb" (function [s] -> if TextTapeWf.tape_wfb (Ttglue.tape_of_string s) then "y" else "n" | _ -> "BADCASE")
 (* <<< a_c06 *)
+
+(* >>> a_c01 (C01): a chain of parses into one tape = each document parsed on its own (the model has no tape argument) *)
+let () =
+  register "tt.chain" (fun docs ->
+      Stdlib.String.concat " | " (Stdlib.List.map (fun h -> show_parse (TextTape.parse (bytes_of_hex h))) docs))
+
+(* the cfg(not(target_arch = "x86_64")) scanners (TextTapeMore.v); the implementation side of these two
+   kinds is the harness run under Miri for a non-x86-64 target (props/C01_more.py, stream nonx86) *)
+let () =
+  register "tt.quote8" (function [h] -> pair_out (TextTapeMore.parse_quote_scalar_swar (bytes_of_hex h)) | _ -> "BADCASE");
+  register "tt.split_plain" (function [h] -> pair_out (TextTapeMore.split_at_scalar_plain (bytes_of_hex h)) | _ -> "BADCASE")
+
+let op_name (o : TextTok.operator) : string =
+  match o with
+  | TextTok.LessThan -> "LESS_THAN" | TextTok.LessThanEqual -> "LESS_THAN_EQUAL" | TextTok.GreaterThan -> "GREATER_THAN"
+  | TextTok.GreaterThanEqual -> "GREATER_THAN_EQUAL" | TextTok.NotEqual -> "NOT_EQUAL" | TextTok.Exact -> "EXACT"
+  | TextTok.Equal -> "EQUAL" | TextTok.Exists -> "EXISTS"
+
+let () =
+  register "tt.ops" (function [h] ->
+      (match TextTape.parse (bytes_of_hex h) with
+       | Bytes.Ok (t, _) ->
+         let v = Stdlib.List.filter_map (function
+             | TextTok.TOperator o ->
+               let sym = hex_of_bytes (TextTok.op_symbol o) in
+               Some (Printf.sprintf "%s:%s:%s:%s" (string_of_n (TextTok.op_code o)) sym (op_name o) sym)
+             | _ -> None) t in
+         if v = [] then "ok -" else "ok " ^ Stdlib.String.concat " " v
+       | Bytes.Err _ -> "ERR"
+       | _ -> crash_tag) | _ -> "BADCASE")
+(* <<< a_c01 *)
